@@ -37,12 +37,27 @@ def run(cmd, cwd=None, env=None, timeout=1800, check=False, stdin=None):
     e.update({"CARGO_NET_OFFLINE": "true"})
     if env:
         e.update(env)
-    p = subprocess.run(cmd, cwd=cwd, env=e, timeout=timeout, stdout=subprocess.PIPE,
-                       stderr=subprocess.STDOUT, text=True, errors="replace", input=stdin,
-                       shell=isinstance(cmd, str))
+    p = subprocess.Popen(cmd, cwd=cwd, env=e, stdout=subprocess.PIPE, stderr=subprocess.STDOUT, text=True,
+                         errors="replace", stdin=subprocess.PIPE if stdin is not None else None,
+                         shell=isinstance(cmd, str), start_new_session=True)
+    try:
+        out, _ = p.communicate(input=stdin, timeout=timeout)
+    except subprocess.TimeoutExpired:
+        # kill the whole process group: a stuck harness must not keep a core busy afterwards
+        try:
+            os.killpg(p.pid, 9)
+        except Exception:
+            p.kill()
+        try:
+            out, _ = p.communicate(timeout=5)
+        except Exception:
+            out = ""
+        if check:
+            raise RuntimeError("command timed out: %s" % cmd)
+        return 124, (out or "") + "\ntimeout"
     if check and p.returncode != 0:
-        raise RuntimeError("command failed (%s): %s\n%s" % (p.returncode, cmd, p.stdout[-4000:]))
-    return p.returncode, p.stdout
+        raise RuntimeError("command failed (%s): %s\n%s" % (p.returncode, cmd, out[-4000:]))
+    return p.returncode, out
 
 
 # ------------------------------------------------------------------ Coq stage
